@@ -455,7 +455,9 @@ def m9(ctx):
         cfg = ctx.cfg(f)
         setters = [(x, c) for x in cfg.stmt_nodes() for c in x.calls() if isinstance(c.func, ast.Attribute)
                    and (c.func.attr.startswith("set_") or c.func.attr in ("write", "write_to_path", "do_commit"))]
-        foreign = [src(c)[:60] for _x, c in setters if not (dotted(c.func) == "self.config." + nm)]
+        # the forwarding call is `<metadata back end>.<same setter>(...)`, however the back end object is obtained
+        # (the `config` property, a method returning it, a local)
+        foreign = [src(c)[:60] for _x, c in setters if c.func.attr != nm]
         n += 1
         obs.append(ctx.ob(bool(setters) and not foreign, f.qualname, f.where, "%s writes its own property only" % nm,
                           "self.config.%s(...) and nothing else" % nm,
